@@ -53,7 +53,7 @@ func c15Check(c c15Case) error {
 	pool := make([]*simdjson.ParsedJson, c15Slots)
 	model := make([][]byte, c15Slots) // canonical form each pooled object must expose (nil: unknown / dead)
 	sers := []*simdjson.Serializer{simdjson.NewSerializer(), simdjson.NewSerializer()}
-	var lastBlob []byte
+	var lastBlob, olderBlob []byte
 	var lastBlobCanon []byte
 	for i, st := range c.Steps {
 		slot := st.Slot
@@ -219,6 +219,9 @@ func c15Check(c c15Case) error {
 			if !bytes.Equal(bc, model[slot]) {
 				return fmt.Errorf("%s: blob written by the reused Serializer denotes a different document: %s", where, diffCanon(model[slot], bc))
 			}
+			if lastBlob != nil && !bytes.Equal(lastBlob, blob) {
+				olderBlob = lastBlob
+			}
 			lastBlob, lastBlobCanon = blob, model[slot]
 		case "deserialize":
 			if lastBlob == nil {
@@ -229,7 +232,11 @@ func c15Check(c c15Case) error {
 			if st.Edit%3 == 0 {
 				// first a call that fails late (damaged header of the last block) on the same Serializer: the
 				// following good call must not be disturbed by anything the failed one left running
-				bad := append([]byte(nil), lastBlob...)
+				src := lastBlob
+				if olderBlob != nil {
+					src = olderBlob // a different document, so that anything the failed call leaves behind is visible
+				}
+				bad := append([]byte(nil), src...)
 				if f, _, err := walkFrame(bad); err == nil && f.vals.present && len(f.vals.data) > 0 {
 					bad[len(bad)-len(f.vals.data)-1] = 0x7f // unknown block type of the values block
 					if _, err := s.Deserialize(bad, nil); err == nil {
